@@ -408,7 +408,22 @@ impl Leg for PyAcgtMany {
     }
 }
 
+/// one Python iterator object driven by a script (next / for-with-break / list / iter, calls after the end)
+pub struct PySessions;
+impl Leg for PySessions {
+    type Case = super::pysessions::PySession;
+    const NAME: &'static str = "python-call-histories";
+    fn strategy(_tier: Tier) -> BoxedStrategy<Self::Case> {
+        super::pysessions::strategy(false)
+    }
+    fn check(c: &Self::Case) -> Verdict {
+        super::pysessions::check(c)
+    }
+}
+
 pub fn run(ctx: &mut Ctx) {
+    let np = ctx.share(ctx.tier.pick(6_000, 120_000));
+    ctx.run_leg::<PySessions>(np, false, 300);
     let n = ctx.share(ctx.tier.pick(400, 8_000));
     ctx.run_leg::<PySym>(n, false, 40);
     let n = ctx.share(ctx.tier.pick(12_000, 200_000));
@@ -445,6 +460,7 @@ pub fn replay(leg: &str, case: &serde_json::Value) -> Option<Result<Verdict, Str
         "seq-symmetry" => Some(crate::engine::replay_leg::<Seqs>(case)),
         "python-to-acgt" => Some(crate::engine::replay_leg::<PyAcgt>(case)),
         "python-to-acgt-one-object" => Some(crate::engine::replay_leg::<PyAcgtMany>(case)),
+        "python-call-histories" => Some(crate::engine::replay_leg::<PySessions>(case)),
         "python-stream-symmetry" => Some(crate::engine::replay_leg::<PySym>(case)),
         "raw-bytes-pairs" => Some(crate::engine::replay_leg::<RawPairs>(case)),
         "python-to-acgt-while-iterating" => Some(crate::engine::replay_leg::<PyAcgtLoop>(case)),
